@@ -269,7 +269,8 @@ async fn one_round(ctx: &Ctx, out: &mut Outcome, rng: &mut Rng, idx: u64, root: 
             let kind = *rng.pick(&[SchemaKind::A, SchemaKind::A, SchemaKind::B, SchemaKind::T]);
             schema_kinds.insert(format!("{:?}", kind));
             let big = rng.chance(1, 6);
-            let k = if resend { flush_rows_cfg } else { 1 + rng.usize(if big { 60 } else { 6 }) };
+            // ("any row count >= 1": now and then a batch of a few thousand rows)
+            let k = if resend { flush_rows_cfg } else if rng.chance(1, 40) { 3000 + rng.usize(6000) } else { 1 + rng.usize(if big { 60 } else { 6 }) };
             let rows: Vec<RowSpec> = (0..k)
                 .map(|_| {
                     next_id += 1;
